@@ -27,8 +27,11 @@ EXTENDS Lifecycle, Json, IOUtils, TLCExt
 
 Traces == JsonDeserialize(IOEnv.TRACE_FILE)
 
-VARIABLES tid, l
-tvars == <<s, tid, l>>
+VARIABLES tid, l,
+          pend    \* keyword settings (EvaluationMonitor= / StepMonitor= / penalty= / constraints=) handed to the
+                  \* running Step call and not yet processed: Step processes them in _Step, i.e. only if an
+                  \* iteration is begun; Solve processes them on entry, before anything else
+tvars == <<s, tid, l, pend>>
 
 Tr == Traces[tid]
 E  == Tr[l]
@@ -72,21 +75,41 @@ KOk(t, k, bounded) ==
 
 IsEvent(name) == l <= Len(Tr) /\ E.ev = name /\ l' = l + 1 /\ UNCHANGED tid
 
+(* ---- configuration by keyword of Step / Solve (abstract_solver._process_inputs) ----                          *)
+(* One keyword is the corresponding Set* call (the action's post-state function without its guard); several are   *)
+(* processed in the fixed order EvaluationMonitor, StepMonitor, penalty, constraints.  A keyword record is        *)
+(* [what |-> "evalmon" | "stepmon" | "pen" | "cons", new |-> BOOLEAN, on |-> BOOLEAN].                            *)
+KwF(t, k) ==
+  CASE k.what = "evalmon" -> LET keep == k.on /\ t.evmon /\ ~k.new IN
+                             Cfg([FinalizeF(t) EXCEPT !.nem = IF keep THEN t.nem ELSE 0, !.evmon = k.on,
+                                                      !.embase = IF keep THEN t.embase ELSE t.real])
+    [] k.what = "stepmon" -> Cfg(IF t.dec THEN FinalizeF(t) ELSE t)
+    [] OTHER -> Cfg(Restale(t, k.what))
+RECURSIVE KwAll(_, _)
+KwAll(t, ks) == IF ks = << >> THEN t ELSE KwAll(KwF(t, Head(ks)), Tail(ks))
+KwOf(e) == IF "kw" \in DOMAIN e THEN e.kw ELSE << >>
+
 TraceInit ==
   /\ tid \in 1..Len(Traces)
   /\ l = 2
   /\ Traces[tid][1].ev = "New"
   /\ LET n == Traces[tid][1] IN s = Init0(n.kind, n.np, n.dim, n.defG, n.defE)
+  /\ pend = << >>
 
 TraceCall ==
   /\ IsEvent("Call")
   /\ LET cl == << <<"C05:call-while-running", s.pc = "idle">> >> IN Probe(cl) /\ AllTrue(cl)
-  /\ Call(E.mode)
+  /\ s.ncalls < MaxCalls
+  /\ IF E.mode = "solve"
+     THEN s' = CallF(KwAll(s, KwOf(E)), E.mode) /\ pend' = << >>      \* Solve: keywords first, then the call
+     ELSE s' = CallF(s, E.mode) /\ pend' = KwOf(E)                    \* Step: keywords wait for the iteration
 
 TraceIter ==
   /\ IsEvent("Iter")
   /\ LET running == s.pc \in {"pre", "post"}
-         base == IF s.pc = "post" THEN PostContinueF(s) ELSE s
+         base0 == IF s.pc = "post" THEN PostContinueF(s) ELSE s
+         (* pending keywords of a Step are processed now, then the objective is re-decorated *)
+         base == IF pend # << >> THEN BootF(KwAll(base0, pend)) ELSE base0
          k == E.real - s.real
          post == IterF(base, k, E.term, E.exit)
          cl == << <<"C05:iteration-outside-a-call-or-after-it-stopped", running>>,
@@ -99,6 +122,7 @@ TraceIter ==
      IN  /\ Probe(cl)
          /\ AllTrue(cl)
          /\ s' = post
+         /\ pend' = << >>
 
 TraceRet ==
   /\ IsEvent("Ret")
@@ -118,11 +142,12 @@ TraceRet ==
      IN  /\ Probe(cl)
          /\ AllTrue(cl)
          /\ s' = post
+         /\ pend' = << >>          \* a Step that stops at its pre-check never looks at its keywords
 
 CfgEvent(name, post) ==
   /\ IsEvent(name)
   /\ LET cl == << <<"C05:configuration-call-while-running", CanCfg>> >> \o MatchClauses(post, E)
-     IN Probe(cl) /\ AllTrue(cl) /\ s' = post
+     IN Probe(cl) /\ AllTrue(cl) /\ s' = post /\ UNCHANGED pend
 
 SetLimitsF(t, g, e, new) ==
   [t EXCEPT !.limG = IF g = None THEN (IF new THEN Star ELSE None) ELSE (IF new THEN g + Gens(t) ELSE g),
@@ -133,7 +158,7 @@ TraceSetLimits ==
   /\ LET post == Cfg(SetLimitsF(s, E.g, E.e, E.new))
          cl == << <<"C05:configuration-call-while-running", CanCfg>>,
                   <<"C05:limit-bookkeeping", post.limG = E.limG /\ post.limE = E.limE>> >> \o MatchClauses(post, E)
-     IN Probe(cl) /\ AllTrue(cl) /\ s' = post
+     IN Probe(cl) /\ AllTrue(cl) /\ s' = post /\ UNCHANGED pend
 TraceSetCfg    == CfgEvent("SetCfg", Cfg([Restale(s, E.what) EXCEPT !.term = E.term, !.mono = s.mono /\ E.what # "objchange"]))
 TraceFinalize  == CfgEvent("Finalize", Cfg(FinalizeF(s)))
 TraceSetEvalMon == CfgEvent("SetEvalMon",
@@ -162,7 +187,7 @@ TraceWrap ==
                   <<"C05:generation-limit-exceeded", E.gens <= ResG(t)>>,
                   <<"C05:evaluation-limit-overshoot", E.fcalls < ResE(t) + maxk>>,
                   <<"C05:returned-without-stop-condition", E.mustlimit => WarnFlag(t) # 0>> >>
-     IN Probe(cl) /\ AllTrue(cl) /\ s' = [Resolve(t) EXCEPT !.pc = "idle", !.stopped = TRUE]
+     IN Probe(cl) /\ AllTrue(cl) /\ s' = [Resolve(t) EXCEPT !.pc = "idle", !.stopped = TRUE] /\ UNCHANGED pend
 
 TraceNext == \/ TraceWrap \/ TraceCall \/ TraceIter \/ TraceRet \/ TraceSetLimits \/ TraceSetCfg \/ TraceFinalize
              \/ TraceSetEvalMon \/ TraceSetStepMon \/ TraceSetTerm \/ TraceExit
